@@ -90,7 +90,11 @@ class Merge(Expr):
         )
 
     def _filter_passthrough_available(self, parent, dependents):
-        if is_filter_pushdown_available(self, parent, dependents):
+        # A reduction over the merged frame has a different value when it is computed
+        # on one of the inputs, a predicate that contains one has to stay above
+        if is_filter_pushdown_available(
+            self, parent, dependents, allow_reduction=False
+        ):
             predicate = parent.predicate
             # This protects against recursion, no need to separate ands if the first
             # condition violates the join direction
